@@ -34,7 +34,7 @@ ASSUMPTIONS = [
     "reductions over the batch (product()) and sample() (the shape of the random stream depends on R) are not slice-commuting by definition and are not in the table",
     "object results are compared attribute-wise for every attribute exposed (not None) on both sides, plus function values",
 ]
-BOUNDS = {"quick": dict(D=[2], R=[1, 2, 3], idx_len=2), "thorough": dict(D=[1, 2, 3], R=[1, 2, 3, 4], idx_len=3, R_extra=[5, 6])}
+BOUNDS = {"quick": dict(D=[2], R=[1, 2, 3], idx_len=2, D_light=[3], R_light=[2, 4]), "thorough": dict(D=[1, 2, 3], R=[1, 2, 3, 4], idx_len=3, R_extra=[5, 6])}
 BUDGET = {"quick": 900, "thorough": 7200}
 
 
@@ -313,6 +313,10 @@ def shards(tier, seed):
             for k in range(NSHARD):
                 out.append(dict(id="C12/D%d/v%d/part%02d" % (D, vi, k), D=D, vi=vi, part=k, cost=D, facts=dict(D=D)))
             out.append(dict(id="C12/D%d/v%d/update" % (D, vi), D=D, vi=vi, part="update", cost=1, facts=dict(D=D)))
+    # light pass on another dimension / larger batches: single indices, the reversed range and one triple only
+    for D in BOUNDS[tier].get("D_light", []):
+        for k in range(NSHARD // 2):
+            out.append(dict(id="C12/D%d/v0/light%02d" % (D, k), D=D, vi=0, part=k, nsh=NSHARD // 2, light=True, cost=D, facts=dict(D=D)))
     return out
 
 
@@ -330,12 +334,13 @@ def run_shard(shard, ctx):
         return run_update(shard, ctx)
     table = build_table(D, seed, vi)
     ctx.cmax("max_table_size", len(table))
-    mine = [op for i, op in enumerate(table) if i % NSHARD == shard["part"]]
+    mine = [op for i, op in enumerate(table) if i % shard.get("nsh", NSHARD) == shard["part"]]
+    light = shard.get("light", False)
     for op in mine:
-        for R in Bd["R"] + Bd.get("R_extra", []):
+        for R in (Bd["R_light"] if light else Bd["R"] + Bd.get("R_extra", [])):
             if op.Rs is not None and R not in op.Rs:
                 continue
-            extra = R in Bd.get("R_extra", [])
+            extra = light or R in Bd.get("R_extra", [])
             facts = dict(op=op.name, R=R)
             ctx.case_desc = dict(op=op.name, R=R, idx="setup")
             with ctx.guard("op.full_call", facts) as g:
